@@ -46,12 +46,15 @@ def run_instance(rep, prop, desc, inst, max_patterns=1 << 17, only_alpha=None):
         # emitter is first run on a separate set of caller variables of the same solver; that first posting
         # is later fixed to the reversed pattern (for grids: the board rotated by 180 degrees) whenever the
         # reversed pattern itself satisfies the predicate, and the verdict on alpha must not change
+        from . import graphprops as _gp
+        _gp.SHARE.update(on=(desc.get("twice") == "shared"), g=None, key=None)
         try:
             caller0 = inst.declare(s)
             inst.emit(s, caller0)
         except Exception:
             caller0 = None
             s = Solver()
+            _gp.SHARE.update(on=False, g=None, key=None)
     nv_first = len(s.variables)
     nc_first = len(s.constraints)
     caller = inst.declare(s)
@@ -70,7 +73,12 @@ def run_instance(rep, prop, desc, inst, max_patterns=1 << 17, only_alpha=None):
         rep.violation("%s:%s:%s" % (base, kind, cls), "%s | instance %s | alpha %s" % (detail, json.dumps(desc, sort_keys=True), alpha), rp)
 
     try:
-        ret = inst.emit(s, caller)
+        try:
+            ret = inst.emit(s, caller)
+        finally:
+            if desc.get("twice"):
+                from . import graphprops as _gp2
+                _gp2.SHARE.update(on=False, g=None, key=None)
     except Exception as e:
         if inst.expected_exception and isinstance(e, inst.expected_exception):
             rep.case(json.dumps(desc, sort_keys=True), nontrivial=False)
@@ -124,8 +132,10 @@ def run_instance(rep, prop, desc, inst, max_patterns=1 << 17, only_alpha=None):
                     p = z3.Bool("p0_%d_%d" % (v.id, val))
                     z.add(p == (zv[v.id] == val))
                     lits0[v.id][val] = p
+    only_partner = None
     if only_alpha is not None:
         if isinstance(only_alpha, dict):
+            only_partner = only_alpha.get("first_posting")
             only_alpha = only_alpha["alpha"]
         alphas = [tuple(only_alpha)]
     elif inst.alphas is not None:
@@ -146,49 +156,60 @@ def run_instance(rep, prop, desc, inst, max_patterns=1 << 17, only_alpha=None):
           z.push()
           z.add(gformula)
       for alpha in alphas:
-        n += 1
-        assumptions = [lits[v.id][val] for v, val in zip(caller, alpha)]
+        partners = [None]
         if caller0 is not None:
             if lits0 is None:
                 continue
-            rev = list(alpha)[::-1]
-            try:
-                ok_rev = all(val in lits0[v.id] for v, val in zip(caller0, rev)) and inst.pred(rev)
-            except Exception:
-                ok_rev = False
-            if isinstance(ok_rev, tuple):
-                ok_rev = ok_rev[0]
-            if not ok_rev:
+            # the first posting is fixed to the reversed pattern; in the shared-graph variant with a listed set of
+            # patterns also to every other listed pattern
+            partners = [list(alpha)[::-1]]
+            if desc.get("twice") == "shared" and inst.alphas is not None and len(alphas) <= 40:
+                partners += [list(b) for b in alphas if tuple(b) != tuple(alpha)]
+            if only_partner is not None:
+                partners = [list(only_partner)]
+        for partner in partners:
+            assumptions = [lits[v.id][val] for v, val in zip(caller, alpha)]
+            if partner is not None:
+                try:
+                    ok_p = all(val in lits0[v.id] for v, val in zip(caller0, partner)) and inst.pred(partner)
+                except Exception:
+                    ok_p = False
+                if isinstance(ok_p, tuple):
+                    ok_p = ok_p[0]
+                if not ok_p:
+                    continue
+                assumptions = assumptions + [lits0[v.id][val] for v, val in zip(caller0, partner)]
+            n += 1
+            r = z.check(*assumptions)
+            exp = inst.pred(list(alpha)) if inst.ghost is None else inst.pred(list(alpha), gp)
+            exp_ret = None
+            if isinstance(exp, tuple):
+                exp, exp_ret = exp
+            shown = list(alpha) if gp is None else dict(alpha=list(alpha), ghost=gp)
+            if partner is not None:
+                shown = dict(alpha=list(alpha), first_posting=list(partner))
+            if r == z3.unknown:
+                rep.undecide("%s %s alpha=%s: solver unknown" % (base, key, shown))
                 continue
-            assumptions = assumptions + [lits0[v.id][val] for v, val in zip(caller0, rev)]
-        r = z.check(*assumptions)
-        exp = inst.pred(list(alpha)) if inst.ghost is None else inst.pred(list(alpha), gp)
-        exp_ret = None
-        if isinstance(exp, tuple):
-            exp, exp_ret = exp
-        shown = list(alpha) if gp is None else dict(alpha=list(alpha), ghost=gp)
-        if r == z3.unknown:
-            rep.undecide("%s %s alpha=%s: solver unknown" % (base, key, shown))
-            continue
-        got = r == z3.sat
-        if got != bool(exp):
-            cls = inst.classify(list(alpha)) if inst.ghost is None else inst.classify(list(alpha), gp)
-            viol("accepts-but-should-reject" if got else "rejects-but-should-accept", cls,
-                 "constraints %s, predicate says %s" % ("satisfiable" if got else "unsatisfiable", bool(exp)), shown)
-        elif got and exp_ret is not None and ret_terms is not None:
-            if len(exp_ret) != len(ret_terms):
-                viol("returned-shape", "len", "returned %d values, expected %d" % (len(ret_terms), len(exp_ret)), shown)
-            else:
-                z.push()
-                z.add(z3.Or([t != (z3.BoolVal(e) if isinstance(e, bool) else z3.IntVal(e)) for t, e in zip(ret_terms, exp_ret)]))
-                r2 = z.check(*assumptions)
-                if r2 == z3.sat:
-                    m = z.model()
-                    gotv = [z3.is_true(m.eval(t, model_completion=True)) if z3.is_bool(t) else m.eval(t, model_completion=True).as_long() for t in ret_terms]
-                    viol("returned-values", inst.classify(list(alpha)), "a model has returned values %s, expected %s" % (gotv, exp_ret), shown)
-                elif r2 == z3.unknown:
-                    rep.undecide("%s %s alpha=%s: returned-value query unknown" % (base, key, shown))
-                z.pop()
+            got = r == z3.sat
+            if got != bool(exp):
+                cls = inst.classify(list(alpha)) if inst.ghost is None else inst.classify(list(alpha), gp)
+                viol("accepts-but-should-reject" if got else "rejects-but-should-accept", cls,
+                     "constraints %s, predicate says %s" % ("satisfiable" if got else "unsatisfiable", bool(exp)), shown)
+            elif got and exp_ret is not None and ret_terms is not None:
+                if len(exp_ret) != len(ret_terms):
+                    viol("returned-shape", "len", "returned %d values, expected %d" % (len(ret_terms), len(exp_ret)), shown)
+                else:
+                    z.push()
+                    z.add(z3.Or([t != (z3.BoolVal(e) if isinstance(e, bool) else z3.IntVal(e)) for t, e in zip(ret_terms, exp_ret)]))
+                    r2 = z.check(*assumptions)
+                    if r2 == z3.sat:
+                        m = z.model()
+                        gotv = [z3.is_true(m.eval(t, model_completion=True)) if z3.is_bool(t) else m.eval(t, model_completion=True).as_long() for t in ret_terms]
+                        viol("returned-values", inst.classify(list(alpha)), "a model has returned values %s, expected %s" % (gotv, exp_ret), shown)
+                    elif r2 == z3.unknown:
+                        rep.undecide("%s %s alpha=%s: returned-value query unknown" % (base, key, shown))
+                    z.pop()
       if gformula is not None:
           z.pop()
     rep.evaluations += n
@@ -258,7 +279,7 @@ def run_parallel(rep, prop, modname, descs, max_patterns=1 << 17, nproc=16):
     # two postings on one solver (see run_instance): a sample of all instances, the deep ones included
     quick = rep.tier == "quick"
     tw = [d for d in descs if d.get("deep") and not d.get("weave")] + [d for d in descs if not d.get("deep")][:: max(1, len(descs) // (40 if quick else 200))]
-    tw = [dict(d, twice=True) for d in tw]
+    tw = [dict(d, twice=True) for d in tw] + [dict(d, twice="shared") for d in tw if "edges" in d and d.get("edges")]
     ntw = min(len(tw), nproc) or 1
     tasks += [(modname, prop, tw[i::ntw], rep.tier, rep.seed, 96 if quick else 1024) for i in range(ntw) if tw[i::ntw]]
     rep.coverage["two_postings_on_one_solver"] = len(tw)
